@@ -666,6 +666,13 @@ func (s *e2eSite) ServeHTTP(w http.ResponseWriter, req *http.Request) {
 		}
 		return
 	}
+	if s.mode == "slow" { // every answer takes a while: a stop or kill finds fetches in flight
+		select {
+		case <-req.Context().Done():
+			return
+		case <-time.After(time.Duration(120+mix(s.seed, url+"#delay").Intn(300)) * time.Millisecond):
+		}
+	}
 	status, body := res.status, res.body
 	if res.failFirst >= att {
 		status, body = 503, []byte("try again")
